@@ -754,7 +754,7 @@ theorem pinv_op_connect {N : Nat} {w : World} (h : PInv N w) (c : String) (node 
     · exact pinv_drop h c
     · exact h
   generalize (if w.conns.any (fun e => e.1 == c) then w.drop c else w) = w1 at h1
-  exact pinv_connect (pinv_frame (w' := { w1 with out := w1.out.filter (fun e => e.1 != c) }) h1 rfl) _ _ _ _ _ _ _
+  exact pinv_connect (pinv_frame (w' := { w1 with out := w1.out.filter (fun e => e.1 != c), deaf := w1.deaf.filter (· != c) }) h1 rfl) _ _ _ _ _ _ _
 
 theorem pinv_op_packet {N : Nat} {w : World} (h : PInv N w) (c : String) (pkt : CPkt) :
     PInv N (applyOp w (.packet c pkt)) := by
@@ -769,10 +769,12 @@ theorem pinv_op_drop {N : Nat} {w : World} (h : PInv N w) (c : String) : PInv N 
 theorem pinv_op_openConn {N : Nat} {w : World} (h : PInv N w) (c : String) (node : Nat) :
     PInv N (applyOp w (.openConn c node)) := by
   simp only [applyOp]
-  apply pinv_openConn
-  split
-  · exact pinv_closeFromClient h c
-  · exact h
+  have h1 : PInv N (if w.conns.any (fun e => e.1 == c) then closeFromClient w c else w) := by
+    split
+    · exact pinv_closeFromClient h c
+    · exact h
+  generalize (if w.conns.any (fun e => e.1 == c) then closeFromClient w c else w) = w1 at h1
+  exact pinv_openConn (pinv_frame (w' := { w1 with deaf := w1.deaf.filter (· != c) }) h1 rfl) c node
 
 theorem pinv_op_raw {N : Nat} {w : World} (h : PInv N w) (c : String) (b : List Nat) : PInv N (applyOp w (.raw c b)) :=
   pinv_rawBytes h c b
